@@ -11,23 +11,25 @@ DECLS = r'''
 use std::sync::atomic::{AtomicUsize, Ordering::SeqCst};
 static ROOT: AtomicUsize = AtomicUsize::new(0);
 static METH: AtomicUsize = AtomicUsize::new(0);
+static OPER: AtomicUsize = AtomicUsize::new(0);
 static DBG: AtomicUsize = AtomicUsize::new(0);
 fn root<T>(v: T) -> T { ROOT.fetch_add(1, SeqCst); v }
+fn op<T>(v: T) -> T { OPER.fetch_add(1, SeqCst); v }
 /// an integer whose Debug impl counts its calls
 #[derive(Clone, Copy, PartialEq, PartialOrd)] struct CD(i32);
 impl std::fmt::Debug for CD { fn fmt(&self, f: &mut std::fmt::Formatter<'_>) -> std::fmt::Result { DBG.fetch_add(1, SeqCst); write!(f, "{}", self.0) } }
 impl PartialEq<i32> for CD { fn eq(&self, o: &i32) -> bool { self.0 == *o } }
 impl PartialOrd<i32> for CD { fn partial_cmp(&self, o: &i32) -> Option<std::cmp::Ordering> { self.0.partial_cmp(o) } }
 #[derive(Debug, Clone)] struct H { v: i32 }
-impl H { fn bump(&self) -> i32 { METH.fetch_add(1, SeqCst); self.v } }
+impl H { fn bump(&self) -> i32 { METH.fetch_add(1, SeqCst); self.v } fn add(&self, k: i32) -> i32 { self.v + k } }
 #[derive(Debug, Clone)] struct W { h: H, c: CD, n: i32, xs: Vec<CD>, oc: Option<CD>, m: BTreeMap<String, i32>, s: String }
 #[derive(Debug, Clone)] struct P2 { a: i32, b: i32 }
 const HI5: i32 = 5;
 fn w() -> W { W { h: H { v: 5 }, c: CD(5), n: 5, xs: vec![CD(1), CD(2)], oc: Some(CD(5)), m: BTreeMap::from([("a".to_string(), 1), ("b".to_string(), 2)]), s: "hello".to_string() } }
 fn counted<F: FnOnce() + std::panic::UnwindSafe>(id: &str, f: F) {
-    ROOT.store(0, SeqCst); METH.store(0, SeqCst); DBG.store(0, SeqCst);
+    ROOT.store(0, SeqCst); METH.store(0, SeqCst); DBG.store(0, SeqCst); OPER.store(0, SeqCst);
     let r = std::panic::catch_unwind(f);
-    println!("cnt {} {} root={} meth={} dbg={}", id, if r.is_ok() { "pass" } else { "fail" }, ROOT.load(SeqCst), METH.load(SeqCst), DBG.load(SeqCst));
+    println!("cnt {} {} root={} meth={} dbg={} oper={}", id, if r.is_ok() { "pass" } else { "fail" }, ROOT.load(SeqCst), METH.load(SeqCst), DBG.load(SeqCst), OPER.load(SeqCst));
 }
 '''
 
@@ -86,6 +88,17 @@ DEBUG_CASES = [("c: == 5", "c: == 6", True), ("c: > 3", "c: > 7", True), ("oc: S
                ("xs[1].clone(): |cl_x| cl_x > 1", "xs[1].clone(): |cl_x| cl_x > 2", True),
                ("c.clone(): == 5", "c.clone(): == 6", True)]
 
+# user expressions written INSIDE a pattern, wrapped in the counting function op(..): (passing, failing, where the expression stands).
+# An operand, a Like expression or a map key is evaluated exactly once on either path; an argument of a field-operation chain
+# follows the chain (once on the passing path; the chain is evaluated again for the message on the failing path: recorded finding)
+OPERAND_CASES = [("n: > op(3)", "n: > op(7)", "operand"), ("n: == op(5)", "n: == op(6)", "operand"), ("n: != op(6)", "n: != op(5)", "operand"),
+                 ("n: <= op(5)", "n: < op(5)", "operand"), ("n: >= op(5)", "n: > op(5)", "operand"), ("oc: Some(== op(5))", "oc: Some(< op(5))", "operand"),
+                 ("xs: [>= op(1), ..]", "xs: [> op(1), ..]", "operand"), ("c: > op(3)", "c: > op(7)", "operand"),
+                 ("s: =~ op(\"^he\")", "s: =~ op(\"^zz\")", "like"), ("m: #{ op(\"a\".to_string()): 1, .. }", "m: #{ op(\"a\".to_string()): 2, .. }", "key"),
+                 ("m: #{ op(\"a\".to_string()): 1, op(\"b\".to_string()): 2 }", "m: #{ op(\"a\".to_string()): 1, op(\"zz\".to_string()): 2 }", "keys2"),
+                 ("h.add(op(1)): 6", "h.add(op(1)): 7", "chain-arg"), ("xs[op(0)]: == 1", "xs[op(0)]: == 2", "chain-arg"),
+                 ("h.add(op(1)): > op(5)", "h.add(op(1)): > op(6)", "chain-arg+operand")]
+
 NO_MODEL = {"range_const_hi": "range", "range_assoc_const": "range"}
 
 CLASS_TEXT = {
@@ -135,8 +148,13 @@ def run(res):
             cases.append({"id": "dbg_%d_%s" % (len(cases), outcome), "kind": pat, "where": "debug", "class": None, "outcome": outcome, "formats": fmt,
                           "body": "let v = w(); assert_struct!(root(v.clone()), %s);" % full, "inv": "root(v.clone()), " + full,
                           "model_value": W_MODEL, "pattern": full})
+    oper_cases = []
+    for pp, pf, where in OPERAND_CASES:
+        for outcome, pat in (("pass", pp), ("fail", pf)):
+            oper_cases.append({"id": "oper_%d_%s" % (len(oper_cases), outcome), "where": where, "outcome": outcome, "pattern": "W { %s, .. }" % pat,
+                               "body": "let v = w(); assert_struct!(v, W { %s, .. });" % pat})
     src = (e2e.PRELUDE + DECLS + "fn main() { std::panic::set_hook(Box::new(|_| {}));\n" +
-           "\n".join("    counted(\"%s\", || { %s });" % (c["id"], c["body"]) for c in cases) + "\n}\n")
+           "\n".join("    counted(\"%s\", || { %s });" % (c["id"], c["body"]) for c in cases + oper_cases) + "\n}\n")
     out = e2e.compile_many([src], run=True, tag="c08")
     e2e.cleanup("c08")
     if not out[0]["compiled"]:
@@ -214,6 +232,26 @@ def run(res):
             failing += 1
             res.violation("failing-input", "a reported mismatch on a counting-Debug value formatted nothing: %s" % c["pattern"],
                           {"program_body": c["body"], "real": r})
+    # user expressions inside the pattern
+    oper_bad = 0
+    for c in oper_cases:
+        r = real.get(c["id"])
+        if r is None or r["verdict"] != c["outcome"]:
+            raise vlib.CheckError("operand case %s: %r (intended %s)" % (c["pattern"], r, c["outcome"]))
+        n_ops = c["pattern"].count("op(")
+        want = n_ops
+        if c["outcome"] == "fail" and c["where"].startswith("chain-arg"):
+            want = n_ops + 1                                   # the chain (and its argument) is evaluated again for the message
+            if r["oper"] == want:
+                known_seen.add("C08-fail-path-double-eval")
+                continue
+        if r["oper"] != (n_ops if not (c["outcome"] == "fail" and c["where"].startswith("chain-arg")) else want):
+            oper_bad += 1
+            failing += 1
+            if oper_bad <= 3:
+                res.violation("failing-input", "the user expression(s) wrapped in op(..) in `%s` are evaluated %d time(s) on the %sing path (written: %d)"
+                              % (c["pattern"], r["oper"], c["outcome"], n_ops), {"program_body": c["body"], "real": r})
+    res.streams["operands"] = {"cases": len(oper_cases), "failures": oper_bad}
     for cls in sorted(known_seen):
         if cls in kf:
             res.known.append(CLASS_TEXT[cls])
